@@ -114,8 +114,18 @@ class H(explore.Harness):
         return 404, b"", None
 
     def _wire(self, c, plain):
+        style = self.p.get("resp")
+        if style:
+            plain = ipacc.restyle(plain, style)  # e.g. chunked, as real accessories answer /accessories and /characteristics
+        k = self.p.get("split")
+        self._split_at = None
         if self.secure:
+            if k is not None:
+                # the accessory ends its first block after k plaintext bytes: that is the read boundary the HTTP layer sees
+                return c.session.respond(plain, sizes=[min(k, 1024), 1024])
             return c.session.respond(plain, sizes=[max(1, len(plain) // 2)])  # two (or three) encrypted blocks per message
+        if k is not None:
+            self._split_at = min(k, len(plain) - 1)
         return plain
 
     def _cur(self):
@@ -202,6 +212,10 @@ class H(explore.Harness):
             else:
                 # secure: a read holding a complete block and part of the next one; insecure: the middle of the message
                 h = (len(wire) * 3) // 4 if self.secure else len(wire) // 2
+                if getattr(self, "_split_at", None) is not None:
+                    h = self._split_at
+                elif self.secure and self.p.get("split") is not None:
+                    h = min(self.p["split"], 1024) + 18  # exactly the first block
                 self.partial = (c, wire[h:], tag)
                 c.send(wire[:h])
         elif kind == "deliver-rest":
@@ -370,7 +384,72 @@ def case_explore(p):
         h.close()
 
 
-CASES = {"explore": case_explore}
+def _take(h, label):
+    m = h.menu()
+    if label not in m:
+        raise core.HarnessError(f"label {label} not enabled in {m}")
+    h.take(m.index(label))
+    while "run1" in h.menu():
+        h.take(h.menu().index("run1"))
+
+
+def case_splits(p):
+    """Every position at which a response can be cut in two (insecure: two reads; secure: the accessory's block boundary, then two reads),
+    for one response style; the caller must get exactly that response, and a second request on the same connection its own."""
+    out = []
+    probe = H(dict(p, split=None))
+    try:
+        _take(probe, "req:0")
+        c = probe._cur()
+        n = len(ipacc.restyle(ipacc.http_response(200, f"{c.cid}:0".encode(), "text/plain"), p["resp"]) if p.get("resp") else ipacc.http_response(200, f"{c.cid}:0".encode(), "text/plain"))
+    finally:
+        probe.close()
+    nrun = 0
+    for k in range(1, n):
+        for with_event in (False, True):
+            h = H(dict(p, split=k))
+            trace = []
+            try:
+                for label in ["req:0"] + (["event:0"] if with_event else []) + ["deliver-split:0", "deliver-rest:0", "req:1", "deliver:0"]:
+                    _take(h, label)
+                    trace.append(label)
+                    v = h.violations()
+                    if v:
+                        break
+                if not v:
+                    v = h.finish()
+                if not v:
+                    res = h.outcome()
+                    if res != "ok,ok":
+                        v = [("split-response-not-delivered-to-its-request", {"outcome": res})]
+                    elif with_event and h._seen_events() != [1]:
+                        v = [("event-lost-next-to-split-response", {"events": h._seen_events()})]
+                nrun += 1
+                if v:
+                    out += [(s_, dict(detail=d, split=k, resp=p.get("resp"), secure=p.get("secure", False), trace=trace)) for s_, d in v]
+                    break
+            finally:
+                h.close()
+        if out:
+            break
+    p["_n"] = nrun
+    return out
+
+
+CASES = {"explore": case_explore, "splits": case_splits}
+
+
+def _work_splits(item, seed, tier):
+    acc = core.Acc()
+    p = dict(item, seed=seed)
+    v = case_splits(p)
+    n = p.pop("_n", 1)
+    acc.case(key=("splits", core.jsonable(p)), outcome=f"splits:{'ok' if not v else v[0][0]}", sample={"case": "splits", "params": p}, symbols=("splits", f"resp:{p.get('resp')}", "secure" if p.get("secure") else "plain"))
+    acc.extra["split_positions_run"] += n
+    acc.traces += n
+    for sig, detail in v:
+        acc.violation(sig, "splits", p, detail)
+    return acc
 
 
 def _work(item, seed, tier):
@@ -411,7 +490,11 @@ def run(ctx):
         work += [(p, r, d) for r in rs]
     ctx.bounds.update(depth=depth, configs=configs)
     ctx.pmap(_work, work)
+    styles = [None, "chunked", "chunked-2", "chunked-lower", "lower"] + ([] if quick else ["upper", "mixed", "lws", "extra-headers", "no-ctype"])
+    ctx.pmap(_work_splits, [dict(limit=1, callers=2, P=0, secure=sec, resp=st) for sec in (False, True) for st in styles])
+    ctx.bounds.update(split_sweep="every two-piece split position x response style x {plain, secure} x {with, without an interleaved event}", split_styles=styles)
     ctx.exhaustive = not ctx.acc.capped
     for s in ("req", "deliver", "deliver-split", "deliver-rest", "event", "cancel", "timer", "peer-close", "peer-reset", "unsolicited", "run1", "app-close"):
         ctx.require(ctx.acc.symbols[s] > 0, f"event {s} never enabled")
     ctx.require(len(ctx.acc.outcomes) >= 4, "too few distinct outcomes")
+    ctx.require(ctx.acc.extra["split_positions_run"] >= 500, "split sweep too small")
